@@ -287,6 +287,53 @@ def oracle_commutative(ctx, cmds, max_perms=6):
     return on_result
 
 
+# ---------------------------------------------------------------- what a shape error says
+
+_SHAPE_IN_TEXT = None
+
+
+def shapes_named_in(text):
+    """the shapes written out in an error text - "(3)", "(2, 3)", "(3,)", "()" - as tuples, in the order in which they are named"""
+    global _SHAPE_IN_TEXT
+    import re
+    if _SHAPE_IN_TEXT is None:
+        _SHAPE_IN_TEXT = re.compile(r"\(\s*((?:\d+\s*(?:,\s*\d+\s*)*,?)?)\s*\)")
+    return [tuple(int(x) for x in m.group(1).replace(" ", "").split(",") if x) for m in _SHAPE_IN_TEXT.finditer(text or "")]
+
+
+def oracle_shape_report(ctx):
+    """mismatched shapes "are reported by their specific errors": the error that refuses inputs of several shapes names two shapes - two DIFFERENT ones (an
+    error saying that (3) and (3) do not match reports nothing), both occurring among the inputs, the first of them the first input's.  Checked on what the
+    exception carries (shape_a / shape_b) and on the text shown to the user; which of several offenders is named is not prescribed"""
+    def on_result(case, out, ans):
+        if out["status"] != "err" or out.get("cls") != "MixedArrayShapes":
+            return
+        shapes = [tuple(a.shape) for a in case.inputs]
+        if len(set(shapes)) < 2:
+            return
+        ctx.count("shape_reports_checked")
+        named = []
+        ns = out.get("named_shapes")
+        if ns is not None and all(isinstance(s, (tuple, list)) for s in ns):
+            named.append(("the error's shape_a / shape_b", [tuple(s) for s in ns]))
+        in_text = shapes_named_in(out.get("text"))
+        if len(in_text) >= 2:
+            named.append(("the error's text", in_text[:2]))
+        for where, (a, b) in named:
+            why = None
+            if a == b:
+                why = "the same shape twice"
+            elif a not in shapes or b not in shapes:
+                why = "a shape that none of the inputs has"
+            elif a != shapes[0]:
+                why = "first a shape other than the first input's"
+            if why:
+                ctx.fail("%s over inputs of shapes %r is refused with MixedArrayShapes, but %s names %r and %r: %s (%r)" % (
+                    case.cmd, shapes, where, a, b, why, (out.get("text") or "").splitlines()[:1]), dict(case.describe(), shapes=[list(s) for s in shapes]))
+                return
+    return on_result
+
+
 # ---------------------------------------------------------------- definitions at scale (fields of 10^5 .. some 10^6 cells)
 
 def np_reference(cmd, params, arrays):
